@@ -2,3 +2,16 @@ import JominiModel.Props.C11
 open Jomini.Props.C11
 #print axioms C11_bool
 #print axioms C11_u64_digits
+#print axioms C11_u64
+#print axioms C11_u64_out_of_range
+#print axioms C11_u64_foreign
+#print axioms C11_i64
+#print axioms C11_i64_out_of_range
+#print axioms C11_i64_foreign
+#print axioms C11_f64_shape
+#print axioms C11_f64_value
+#print axioms C11_u64ToF64_exact
+#print axioms C11_f64_correctly_rounded
+#print axioms C11_f64_integers_exact_or_refused
+#print axioms C11_f64_big_integer_refused
+#print axioms C11_f64_finite_partial
